@@ -53,15 +53,24 @@ def run(ctx):
     tx = base.methods.get("to_xml")
     if fx is None or tx is None:
         raise AnalysisError("anchor vanished: BaseXmlEnum.from_xml/to_xml")
-    src_fx = ast.dump(fx.node)
-    ok_fx = any(isinstance(n, ast.Compare) and isinstance(n.ops[0], ast.Eq) and
-                {dotted(n.left), dotted(n.comparators[0])} == {"member.xml_value", "xml_value"}
-                for n in ast.walk(fx.node))
+    from sa import paths as P_
+    from sa.desugar import desugar as _desugar
+    from sa.idioms import first_matches
+
+    fparam = fx.node.args.args[1].arg
+    fm = [m_ for m_ in first_matches(prog, fx) if m_["terminal"] == "cls" and m_["elt"] == "_"]
+    eq = {"_.xml_value == %s" % fparam, "%s == _.xml_value" % fparam}
     raises_fx = [n for n in ast.walk(fx.node) if isinstance(n, ast.Raise)]
-    if ok_fx and raises_fx and all(_exc_name(r) == "ValueError" for r in raises_fx):
-        ctx.ok("R20.1m", "BaseXmlEnum.from_xml", sample={"selects": "member.xml_value == xml_value", "raises": "ValueError"})
+    rows = P_.outcomes(_desugar(fx.node).body)
+    empty_rows = [r for r in rows if P_.implied(r.facts, lambda a_: a_[0] == "truthy" and a_[1] == fparam and a_[2] is False)]
+    if not fm:
+        ctx.error("BaseXmlEnum.from_xml", "the member search (first member of cls with ...) is not recognised")
+    elif any(set(m_["conds"]) <= eq and m_["conds"] for m_ in fm) and raises_fx and all(_exc_name(r) == "ValueError" for r in raises_fx) \
+            and empty_rows and all(r.end == "raise" for r in empty_rows):
+        ctx.ok("R20.1m", "BaseXmlEnum.from_xml", sample={"selects": "first member of cls with member.xml_value == xml_value", "raises": "ValueError",
+                                                       "empty_token": "ValueError"})
     else:
-        ctx.violation("R20.1m", "BaseXmlEnum.from_xml", "reader does not select the member by token equality / wrong exception",
+        ctx.violation("R20.1m", "BaseXmlEnum.from_xml", "reader does not select the member by token equality / wrong exception (search %s)" % fm,
                       file=fx.file, line=fx.line)
     uses_xml = any(isinstance(n, ast.Attribute) and n.attr == "xml_value" for n in ast.walk(tx.node))
     ctor = any(isinstance(n, ast.Call) and dotted(n.func) == "cls" for n in ast.walk(tx.node))
